@@ -46,13 +46,23 @@ structure In where
   over : List (String × KS)
 deriving Repr
 
+def hasKey (k : String) (m : KS) : Bool := m.any fun kv => kv.1 = k
+
+/-- `transformDependsOn` on a long-form entry (the transform that runs again after the merge): `condition` and `required`
+are filled in when absent.  Entries that came from the short list hold both already; this matters for a name that only
+the later file declares.  (In the hoisted variant the values filled in here would be read from the package-level mapping
+too — a second way for the history to show, not modelled: the literal is used.) -/
+def fill (m : KS) : KS :=
+  let m := if hasKey "condition" m then m else m ++ [("condition", "service_started")]
+  if hasKey "required" m then m else m ++ [("required", "true")]
+
 /-- one iteration of `mergeMappings` at `services.x.depends_on`: the entry that exists is merged into **in place** — if it
 is the package-level mapping, that is what is written; a new name is added with the override's own mapping -/
 def mergeOne (st : KS × List (String × Ref)) (o : String × KS) : KS × List (String × Ref) :=
   match lookupR o.1 st.2 with
   | some (.own m) => (st.1, setR o.1 (.own (putAll o.2 m)) st.2)
   | some .global => (putAll o.2 st.1, st.2)
-  | none => (st.1, st.2 ++ [(o.1, .own o.2)])
+  | none => (st.1, st.2 ++ [(o.1, .own (fill o.2))])
 
 def mergeAll (g : KS) (es : List (String × Ref)) (over : List (String × KS)) : KS × List (String × Ref) :=
   over.foldl mergeOne (g, es)
@@ -90,7 +100,7 @@ def setP (n : String) (x : KS) : List (String × KS) → List (String × KS)
 def mergeOneP (es : List (String × KS)) (o : String × KS) : List (String × KS) :=
   match lookupP o.1 es with
   | some m => setP o.1 (putAll o.2 m) es
-  | none => es ++ [(o.1, o.2)]
+  | none => es ++ [(o.1, fill o.2)]
 
 /-- the pure function of the input that a load computes when nothing is shared -/
 def loadPure (i : In) : List (String × KS) := i.over.foldl mergeOneP (i.short.map fun n => (n, dfltLit))
